@@ -23,6 +23,10 @@ type TypeMethod struct {
 	Inputs            []MethodType
 	Outputs           []MethodType
 	ReceiverIsPointer bool // true if the method is only in the method set of *T, false if it is also in that of T
+
+	// Sig is the method's signature as seen by the type checker (nil in hand-built models).
+	// When both sides have it, signatures are compared with types.Identical.
+	Sig *types.Signature
 }
 
 // MethodType represents a type in method signature
@@ -152,6 +156,7 @@ func extractMethodsFromNamedType(named *types.Named) []TypeMethod {
 			Inputs:            extractMethodTypesFromTuple(sig.Params(), sig.Variadic()),
 			Outputs:           extractMethodTypesFromTuple(sig.Results(), false),
 			ReceiverIsPointer: recvIsPointer,
+			Sig:               sig,
 		})
 	}
 
